@@ -87,27 +87,18 @@ def extract():
     if removes:
         if len(removes) != 1 or removes[0][0] != "lib_guesser/cracking_session.py":
             raise OmenExtractError("omen_guess_number is removed at an unexpected place: %r" % [r for r, _ in removes])
-        call = removes[0][1]
+        # WHERE in CrackingSession.run and UNDER WHICH CONDITION the option is removed (right after restore_omen, under
+        # `if not self.pcfg.omen_exit:`) is decided by the translator tie of run itself (harness/translate_session.py ->
+        # gen/Session_gen.v; SessionGenProofs.cracking_run_eq against SessionModel.m_prologue, C15_source_resume_is_
+        # sess_restore): a removal at another place or under another condition breaks that equality.  The shape check
+        # that used to be here raised on harmless rewrites of the statement (`if omen_exit: pass / else: remove`, a
+        # local for the flag, ...) and took every OMEN constant of this plugin with it.
         run = _func(_parse("lib_guesser/cracking_session.py"), "run", "CrackingSession")
-        guard = None
-        for n in ast.walk(run):
-            if isinstance(n, ast.If) and not n.orelse and len(n.body) == 1 and isinstance(n.body[0], ast.Expr) \
-                    and isinstance(n.body[0].value, ast.Call) and (n.body[0].value.lineno, n.body[0].value.col_offset) == (call.lineno, call.col_offset):
-                guard = n
-        if guard is None:
-            raise OmenExtractError("remove_option(omen_guess_number) is not the single statement of an `if` in CrackingSession.run")
-        t = guard.test
-        ok = (isinstance(t, ast.UnaryOp) and isinstance(t.op, ast.Not) and isinstance(t.operand, ast.Attribute)
-              and t.operand.attr == "omen_exit" and isinstance(t.operand.value, ast.Attribute)
-              and t.operand.value.attr == "pcfg" and isinstance(t.operand.value.value, ast.Name)
-              and t.operand.value.value.id == "self")
-        if not ok:
-            raise OmenExtractError("omen_guess_number is removed under an unexpected condition: %s" % ast.unparse(t))
-        # and it must directly follow the restore_omen call inside the has_option block
-        src_calls = [n for n in ast.walk(run) if isinstance(n, ast.Call) and isinstance(n.func, ast.Attribute)
-                     and n.func.attr == "restore_omen"]
-        if len(src_calls) != 1 or not (src_calls[0].lineno < guard.lineno):
-            raise OmenExtractError("remove_option(omen_guess_number) does not follow the restore_omen call")
+        call = removes[0][1]
+        inside = any((getattr(n, "lineno", None), getattr(n, "col_offset", None)) == (call.lineno, call.col_offset)
+                     for n in ast.walk(run) if isinstance(n, ast.Call))
+        if not inside:
+            raise OmenExtractError("remove_option(omen_guess_number) is not inside CrackingSession.run")
         cleared = True
     sets = 0
     for n in ast.walk(_parse("lib_guesser/cracking_session.py")):
